@@ -19,6 +19,7 @@ type Recorder struct {
 	Writes  int
 	Wrote   bool
 	Bodies  []string // page markers written by template/body models
+	Body    []byte   // the last chunk written
 	cookies []*http.Cookie // ghost list kept by the http.SetCookie model (executor only)
 }
 
@@ -39,6 +40,7 @@ func (r *Recorder) Write(b []byte) (int, error) {
 		r.Code = 200
 	}
 	r.Writes++
+	r.Body = b
 	return len(b), nil
 }
 
